@@ -172,7 +172,7 @@ def _about_cfgs(tier):
     out = []
     for kind in ('pointcloud', 'trimesh', 'image'):
         for d in (2, 3):
-            for tr in ('Affine', 'Rotation', 'UniformScale', 'Homogeneous', 'Opaque'):
+            for tr in ('Affine', 'Rotation', 'UniformScale', 'NonUniformScale', 'Similarity', 'Translation', 'Homogeneous', 'Opaque'):
                 out.append(dict(kind=kind, d=d, tr=tr))
     return out
 
@@ -192,7 +192,7 @@ def transform_about_centre(ctx, kind, d, tr):
     c = np.asarray(obj.centre())
     v = ctx.reals('v', (2, d))
     ctx.check_eq('acts-on-offsets', Tc.apply(v + c), A.apply(v) + c)
-    if tr in ('Rotation', 'UniformScale'):
+    if tr in ('Rotation', 'UniformScale', 'NonUniformScale'):
         # linear maps: the centre itself is fixed
         ctx.check_eq('centre-fixed', Tc.apply(c.reshape(1, d)), c.reshape(1, d))
     if tr != 'Opaque':
